@@ -222,13 +222,18 @@ func (m *Monitor) after(o Op, p *preState, res perfResult) {
 		case "SendToFx":
 			m.dep[o.T].Add(m.dep[o.T], big.NewInt(o.X))
 			via(m.depVia, o.T, o.C).Add(via(m.depVia, o.T, o.C), big.NewInt(o.X))
+			if o.Tgt == 2 { // forwarded over IBC at once
+				m.exe[o.T].Add(m.exe[o.T], big.NewInt(o.X))
+			}
 		case "BridgeCallIn":
 			for _, q := range o.Toks {
 				m.dep[q[0]].Add(m.dep[q[0]], big.NewInt(q[1]))
 				via(m.depVia, int(q[0]), o.C).Add(via(m.depVia, int(q[0]), o.C), big.NewInt(q[1]))
 			}
-		case "IbcMint":
+		case "IbcMint", "IbcRecv":
 			m.dep[o.T].Add(m.dep[o.T], big.NewInt(o.X))
+		case "PreCrossChainIbc": // handed to the IBC channel: executed out of fxcore
+			m.exe[o.T].Add(m.exe[o.T], big.NewInt(o.X))
 		case "BatchExecuted":
 			for t, v := range m.batch[fmt.Sprint(o.C, uint64(o.ID))] {
 				m.exe[t].Add(m.exe[t], v)
@@ -286,6 +291,16 @@ func (m *Monitor) after(o Op, p *preState, res perfResult) {
 					fmt.Sprintf("%s: the EVM call failed; the deposit stayed with the receiver %d and the refund was drawn from the refund address %d's own funds (%s -> %s)", o.Coq(), o.A, o.B, p.user[o.B][i], now[i]))
 				break
 			}
+		}
+	}
+	// ---- FX towards an IBC channel (C04-4): the holder / the chain module has the coins, the refusal is for funds the
+	// transfer module account is expected to hold ----
+	if !res.ok && errClass(res.err) == "insufficient" && w.Toks[o.T].Kind == lib.TokFX {
+		switch {
+		case o.K == "SendToFx" && o.Tgt == 2 && w.C.Bal(ctx, w.Addr(o.C), "FX").Cmp(big.NewInt(o.X)) >= 0:
+			m.fail("C04:deposit-stuck:fx:ibc-target", fmt.Sprintf("%s: an observed deposit of FX with an IBC target can never be executed (the %s module holds the coins; BaseCoinToIBCCoin wants them in the transfer module account): the deposit stays unreachable: %v", o.Coq(), chainName(o.C), res.err))
+		case o.K == "PreCrossChainIbc" && !o.Flag && p.user[o.A][len(w.allDenoms())+0].Cmp(big.NewInt(o.X)) >= 0:
+			m.fail("C04:withdrawable:fx:ibc", fmt.Sprintf("%s: a holder of WFX cannot send it over IBC through crossChain although the balance suffices: %v", o.Coq(), res.err))
 		}
 	}
 	// ---- withdrawable ----
